@@ -880,8 +880,11 @@ class H2Stream:
         if self.state_machine.client and self._authority is None:
             self._authority = authority_from_headers(headers)
 
-        # store request method for _initialize_content_length
-        self.request_method = extract_method_header(headers)
+        # store request method for _initialize_content_length; trailers carry
+        # no method and must not erase the one of the request
+        method = extract_method_header(headers)
+        if method is not None:
+            self.request_method = method
 
         return frames
 
